@@ -68,9 +68,26 @@ def task_rules(sl):
         t["name"] = "my-task"
     if bool(fresh_bool("has_tags")):
         t["tags"] = ["a", "b"]
+    # throughput target: docs/track.rst "Define either target-throughput or target-interval but not both (otherwise Rally will raise an error)";
+    # a target Rally cannot interpret is no target either
+    tt_form = ["none", "throughput number", "throughput with unit", "interval", "both", "uninterpretable", "wrong type"][concrete(fresh_int("throughput_target_form", 0, 6))]
+    tt_val = concrete(fresh_int("throughput_target_value", 1, 3))  # how a valid target is interpreted for every value is C05's target_throughput
+    if tt_form == "throughput number":
+        t["target-throughput"] = tt_val
+    elif tt_form == "throughput with unit":
+        t["target-throughput"] = "10 docs/s"
+    elif tt_form == "interval":
+        t["target-interval"] = tt_val
+    elif tt_form == "both":
+        t["target-throughput"], t["target-interval"] = tt_val, 5
+    elif tt_form == "uninterpretable":
+        t["target-throughput"] = "fast"
+    elif tt_form == "wrong type":
+        t["target-interval"] = "5"
     spec = {"operations": [{"name": "force-merge", "operation-type": "force-merge"}], "schedule": [t]}
     how, res = _load(spec)
-    bad = _rule_violation(f)
+    bad = _rule_violation(f) or tt_form in ("both", "uninterpretable", "wrong type")
+    core.note("throughput target", tt_form)
     core.note("fields", sorted(f))
     core.note("outcome", (how, repr(res)[:100]))
     core.trace("rejected", how == "reject")
@@ -83,6 +100,7 @@ def task_rules(sl):
             got = getattr(task, ATTR[fld])
             observe("%s exactly as written (None if absent)" % fld, (got is None) if fld not in f else (got is f[fld]))
         observe("clients as written", task.clients is t["clients"])
+        observe("throughput target as written", task.params.get("target-throughput") is t.get("target-throughput") and task.params.get("target-interval") is t.get("target-interval"))
         observe("name defaults to the operation name", task.name == t.get("name", "force-merge"))
         observe("tags as written", task.tags == t.get("tags", []))
         observe("single auto-generated challenge is default and selected", ch.default and ch.selected and ch.auto_generated and ch.name == "default")
